@@ -312,10 +312,15 @@ pub fn run(opts: &Opts) -> Report {
 /// to interleave is not controlled, so this can miss, but it cannot raise a false alarm on a library whose readers
 /// are independent.
 #[derive(Clone)]
-enum SOp { WebAnno(String, bool), Validate(String), SubQuery(String), Find(usize, String), NoCase(usize, String), Seq(usize, Vec<String>), Text(usize, usize, usize), Query(String), Json, AnnText(String), Related(String), Regex(usize, String), Split(usize) }
+enum SOp { Observe, Consistency, Transpose(String), SegPos(usize), FindData(String), WebAnno(String, bool), Validate(String), SubQuery(String), Find(usize, String), NoCase(usize, String), Seq(usize, Vec<String>), Text(usize, usize, usize), Query(String), Json, AnnText(String), Related(String), Regex(usize, String), Split(usize) }
 
 fn sop_name(op: &SOp) -> String {
     match op {
+        SOp::Observe => "the whole observation of the store (every item, its data, text, reverse indices)".into(),
+        SOp::Consistency => "the consistency walk over indices, id maps and text selections".into(),
+        SOp::Transpose(a) => format!("transpose {} over the transposition 'via' (result not added)", a),
+        SOp::SegPos(r) => format!("segmentation and positions of resource {}", r),
+        SOp::FindData(k) => format!("find_data / key.data / data.annotations for key {}", k),
         SOp::WebAnno(a, t) => format!("to_webannotation of {}{}", a, if *t { " with an extra-target template" } else { "" }),
         SOp::Validate(a) => format!("validate_text of {}", a),
         SOp::SubQuery(q) => q.clone(),
@@ -335,6 +340,11 @@ fn sop_name(op: &SOp) -> String {
 fn sop_run(store: &AnnotationStore, op: &SOp) -> String {
     let res = |k: &usize| store.resource(format!("big{}", k).as_str()).expect("resource");
     match op {
+        SOp::Observe => format!("fnv {}", fnv(&crate::fam::store::observe(store))),
+        SOp::Consistency => format!("{:?}", crate::fam::store::consistency(store).iter().map(|x| x.0.clone()).collect::<Vec<_>>()),
+        SOp::Transpose(id) => { let via = store.annotation("via"); let src = store.annotation(id.as_str()); match (via, src) { (Some(via), Some(src)) => match src.transpose(&via, TransposeConfig::default()) { Ok(v) => format!("{} builders", v.len()), Err(e) => format!("error {}", e) }, _ => "missing".into() } }
+        SOp::SegPos(r) => { let x = res(r); format!("{:?} | {:?}", x.segmentation().map(|t| (t.begin(), t.end())).collect::<Vec<_>>(), x.as_ref().positions(PositionMode::Both).cloned().collect::<Vec<_>>()) }
+        SOp::FindData(k) => format!("{:?} | {:?}", store.find_data("s", k.as_str(), DataOperator::Any).map(|d| (d.handle().as_usize(), d.annotations().count())).collect::<Vec<_>>(), store.key("s", k.as_str()).map(|key| key.data().count())),
         SOp::WebAnno(id, t) => { let cfg = WebAnnoConfig { auto_generated: false, extra_target_template: if *t { Some("{resource}/{begin}/{end}".to_string()) } else { None }, ..Default::default() }; store.annotation(id.as_str()).map(|a| a.to_webannotation(&cfg)).unwrap_or_default() }
         SOp::Validate(id) => store.annotation(id.as_str()).map(|a| format!("{:?}", a.validate_text())).unwrap_or_default(),
         SOp::SubQuery(q) => match Query::try_from(q.as_str()).and_then(|q| store.query(q)) { Ok(it) => format!("{:?}", it.map(|row| row.iter().map(|x| match x { QueryResultItem::Annotation(a) => a.handle().as_usize(), QueryResultItem::TextSelection(t) => t.begin(), _ => 0 }).collect::<Vec<_>>()).collect::<Vec<_>>()), Err(e) => format!("error {}", e) },
@@ -376,13 +386,22 @@ fn stress(rep: &mut Report, opts: &Opts) {
         ex.store.annotate(AnnotationBuilder::new().with_id(format!("cx{}", k)).with_target(SelectorBuilder::compositeselector(vec![SelectorBuilder::textselector(format!("big{}", k), Offset::simple(starts[1].0, starts[1].1)), SelectorBuilder::textselector(format!("big{}", k), Offset::simple(starts[4].0, starts[4].1)), SelectorBuilder::textselector(format!("big{}", k), Offset::simple(starts[7].0, starts[7].1))])).with_data("s", "c", "x")).ok();
         words.push(w);
     }
+    // a simple transposition between the first words of resources 0 and 2 ("word0é" has no counterpart: only its length matters)
+    {
+        let n0 = words[0][0].chars().count().min(words[2][0].chars().count());
+        ex.store.annotate(AnnotationBuilder::new().with_id("via").with_target(SelectorBuilder::directionalselector(vec![SelectorBuilder::textselector("big0", Offset::simple(0, n0)), SelectorBuilder::textselector("big2", Offset::simple(0, n0))])).with_data("https://w3id.org/stam/extensions/stam-transpose/", "Transposition", DataValue::Null)).ok();
+        ex.store.annotate(AnnotationBuilder::new().with_id("tsrc").with_target(SelectorBuilder::textselector("big0", Offset::simple(1, n0 - 1))).with_data("s", "t", "x")).ok();
+    }
     // validation information for every annotation (written before the store is shared)
     let _ = ex.store.protect_text(TextValidationMode::Auto);
     let store = Arc::new(ex.store);
     let mut ops: Vec<SOp> = vec![SOp::Json, SOp::Query("SELECT ANNOTATION ?a WHERE DATA \"s\" \"k\" = 2;".into()), SOp::Query("SELECT TEXT ?t WHERE RESOURCE \"big0\"; DATA \"s\" \"k\" > 1;".into())];
     ops.push(SOp::SubQuery("SELECT ANNOTATION ?a WHERE DATA \"s\" \"k\" = 2; { SELECT ANNOTATION ?o WHERE RELATION ?a OVERLAPS; DATA \"s\" \"o\" = \"x\"; }".into()));
-    ops.push(SOp::SubQuery("SELECT RESOURCE ?r; { SELECT ANNOTATION ?c WHERE RESOURCE ?r; DATA \"s\" \"c\" = \"x\"; }".into()));
+    ops.push(SOp::SubQuery("SELECT RESOURCE ?r { SELECT ANNOTATION ?c WHERE RESOURCE ?r; DATA \"s\" \"c\" = \"x\"; }".into()));
+    ops.push(SOp::Observe); ops.push(SOp::Consistency); ops.push(SOp::Transpose("tsrc".into()));
+    for k in ["k", "o", "c", "t"] { ops.push(SOp::FindData(k.to_string())); }
     for k in 0..nres {
+        ops.push(SOp::SegPos(k));
         for t in [false, true] { ops.push(SOp::WebAnno(format!("cx{}", k), t)); ops.push(SOp::WebAnno(format!("a{}_0", k), t)); ops.push(SOp::WebAnno(format!("o{}_6", k), t)); }
         ops.push(SOp::Validate(format!("cx{}", k))); ops.push(SOp::Validate(format!("a{}_3", k)));
         ops.push(SOp::Split(k));
@@ -401,6 +420,7 @@ fn stress(rep: &mut Report, opts: &Opts) {
         }
     }
     let alone: Vec<String> = ops.iter().map(|op| sop_run(&store, op)).collect();
+    for (op, a) in ops.iter().zip(alone.iter()) { if a.starts_with("error") || a == "missing" { rep.count(&format!("stress:op-answers-with-an-error:{}", sop_name(op).chars().take(40).collect::<String>())); } }
     // the case-insensitive searches find something (so that a wrong answer is distinguishable)
     for (op, a) in ops.iter().zip(alone.iter()) { if let SOp::NoCase(..) = op { rep.count(if a == "[]" { "stress:nocase-empty" } else { "stress:nocase-found" }); } }
     let rounds = if opts.thorough() { 40 } else { 8 };
